@@ -41,7 +41,8 @@ struct World;
 struct CJob final : yaclib::Job {
   World* w = nullptr;
   int id = 0;
-  int child = -1;  // submitted to the executor under test from inside Call
+  int child = -1;       // submitted to the executor under test from inside Call
+  int drop_child = -1;  // submitted to the executor under test from inside Drop (a pipeline step handing on StopError)
   void Call() noexcept final;
   void Drop() noexcept final;
 };
@@ -68,6 +69,7 @@ struct World {
     jobs[id].w = this;
     jobs[id].id = id;
     jobs[id].child = -1;
+    jobs[id].drop_child = -1;
     calls[id] = drops[id] = 0;
     return id;
   }
@@ -91,6 +93,9 @@ void CJob::Call() noexcept {
 void CJob::Drop() noexcept {
   ++w->drops[id];
   VX_EXPECT(w->refusing || w->always_refuses, "exec:drop-only-when-refusing", "job %d was dropped although the underlying executor never refused work", id);
+  if (drop_child >= 0) {
+    w->SubmitJob(drop_child);
+  }
 }
 
 struct Stats {
@@ -178,6 +183,13 @@ void RunSequence(int under, int wrap, const std::string& seq) {
           w.jobs[a].child = b;
           w.SubmitJob(a);
         } break;
+        case 'q': {
+          // like a pipeline step on this executor whose next step is on it too: when it is dropped it submits the next one
+          const int a = w.NewJob();
+          const int b = w.NewJob();
+          w.jobs[a].drop_child = b;
+          w.SubmitJob(a);
+        } break;
         case 'f': {
           ++functors;
           if (!w.refusing && !w.always_refuses) {
@@ -254,7 +266,7 @@ double NowS() {
 }
 
 void Enumerate(int under, int wrap, int maxlen, double t_end) {
-  const std::string alphabet = under == 3 ? "srfdx" : (under == 2 ? "srfd" : "srf");
+  const std::string alphabet = under == 3 ? "srqfdx" : (under == 2 ? "srfd" : (under == 1 ? "srqf" : "srf"));
   std::string seq;
   // iterative deepening over lengths 1..maxlen, simplest first
   for (int len = 1; len <= maxlen; ++len) {
@@ -267,7 +279,7 @@ void Enumerate(int under, int wrap, int maxlen, double t_end) {
         const char op = alphabet[static_cast<std::size_t>(i)];
         seq += op;
         xs += op == 'x' ? 1 : 0;
-        jobs += op == 'r' ? 2 : (op == 's' ? 1 : 0);
+        jobs += (op == 'r' || op == 'q') ? 2 : (op == 's' ? 1 : 0);
       }
       if (xs <= 1 && jobs <= kMaxJobs) {
         std::snprintf(gS->in_flight, sizeof(gS->in_flight), "under=%s,wrap=%s ops=%s", kUnder[under], kWrap[wrap], seq.c_str());
@@ -306,36 +318,48 @@ int main(int argc, char** argv) {
       ++i;
     }
   }
-  gS = static_cast<Stats*>(mmap(nullptr, sizeof(Stats), PROT_READ | PROT_WRITE, MAP_SHARED | MAP_ANONYMOUS, -1, 0));
-  std::memset(static_cast<void*>(gS), 0, sizeof(Stats));
+  // one child per configuration, all at once: a crash is recorded with the sequence in flight and ends only that configuration
+  constexpr int kConfigs = 12;
+  Stats* all = static_cast<Stats*>(mmap(nullptr, sizeof(Stats) * (kConfigs + 1), PROT_READ | PROT_WRITE, MAP_SHARED | MAP_ANONYMOUS, -1, 0));
+  std::memset(static_cast<void*>(all), 0, sizeof(Stats) * (kConfigs + 1));
   const double t_end = deadline > 0 ? NowS() + deadline : 0;
   const int maxlen = tier == 0 ? 8 : 10;
-  // one child per configuration: a crash is recorded with the sequence in flight and does not end the run
-  for (int under = 0; under < 4; ++under) {
-    for (int wrap = 0; wrap < 3; ++wrap) {
-      gS->done = 0;
-      const pid_t pid = fork();
-      if (pid == 0) {
-        Enumerate(under, wrap, maxlen, t_end);
-        gS->done = 1;
-        _exit(0);
-      }
-      int status = 0;
-      waitpid(pid, &status, 0);
-      if (gS->done == 0) {
-        char what[64];
-        if (WIFSIGNALED(status)) {
-          std::snprintf(what, sizeof(what), "crash:signal-%d", WTERMSIG(status));
-        } else {
-          std::snprintf(what, sizeof(what), "crash:exit-%d", WEXITSTATUS(status));
-        }
-        const std::string fl = gS->in_flight;
-        const auto sp = fl.find(" ops=");
-        AddFinding(fl.substr(0, sp), sp == std::string::npos ? "" : fl.substr(sp + 5), what,
-                   "the sequence terminated the process (sanitizer report / signal / std::terminate); the rest of this configuration was not explored");
-      }
+  pid_t pids[kConfigs];
+  for (int c = 0; c < kConfigs; ++c) {
+    pids[c] = fork();
+    if (pids[c] == 0) {
+      gS = &all[c];
+      Enumerate(c / 3, c % 3, maxlen, t_end);
+      gS->done = 1;
+      _exit(0);
     }
   }
+  Stats* total = &all[kConfigs];
+  for (int c = 0; c < kConfigs; ++c) {
+    int status = 0;
+    waitpid(pids[c], &status, 0);
+    gS = &all[c];
+    if (gS->done == 0) {
+      char what[64];
+      if (WIFSIGNALED(status)) {
+        std::snprintf(what, sizeof(what), "crash:signal-%d", WTERMSIG(status));
+      } else {
+        std::snprintf(what, sizeof(what), "crash:exit-%d", WEXITSTATUS(status));
+      }
+      const std::string fl = gS->in_flight;
+      const auto sp = fl.find(" ops=");
+      AddFinding(fl.substr(0, sp), sp == std::string::npos ? "" : fl.substr(sp + 5), what,
+                 "the sequence terminated the process (sanitizer report / signal / std::terminate); the rest of this configuration was not explored");
+    }
+    total->sequences += gS->sequences;
+    total->ops += gS->ops;
+    total->findings_total += gS->findings_total;
+    total->capped |= gS->capped;
+    for (int k = 0; k < gS->nfind && total->nfind < 40; ++k) {
+      std::memcpy(total->findings[total->nfind++], gS->findings[k], sizeof(gS->findings[0]));
+    }
+  }
+  gS = total;
   std::string js = "{\"harness\":\"exec_seq\",\"property\":\"C05\",\"cells\":[{\"cell\":\"4 executors x direct/strand/strand-over-strand, all op sequences\",";
   char b[400];
   std::snprintf(b, sizeof(b),
